@@ -388,6 +388,11 @@ func checkCodec(c *core.Check, which string) {
 		for _, si := range good[start:end] {
 			tn := fmt.Sprintf("T%d", si)
 			rs := tlaSchema(a, schemas[si], 0)
+			if rs["k"] == "object" && rs["nullable"] == true {
+				// a nullable object component: its Go type is the struct; the null lives in the Nullable[...] wrapper of
+				// whoever refers to it (the properties that do are in the universe: NullRefs, NullableRefIdiom)
+				rs["nullable"] = false
+			}
 			typeSchema[id+"/"+tn] = rs
 			// a top-level discriminated oneOf over component variants: random values whose discriminator is one
 			// of the values the specification declares for the chosen variant (schema name or mapping alias)
